@@ -1,5 +1,6 @@
 // Correspondence harness for C05/C15: calls EVERY real PGN setter / parser / alias wrapper through the dispatch table that
 // tools/cxx2coq.py generates from the same source (gen_msgs_dispatch.inc, in $VERIF_BUILD/gen_msgs).
+//   (<fid> is the function name; overloads are numbered _o2, _o3 in source order)
 //   S <fid> <args...>                                  -> "k<fid> S <pgn> <prio> <dest> <len> <payload hex>"
 //   P <fid> <pgn> <datalen> <data hex> <args...>       -> "k<fid> P <ret> <outputs...>"       (data may be longer than datalen: garbage beyond the payload)
 //   R <sfid> <pfid> <n> <n setter args...> <parser args...>
@@ -50,6 +51,8 @@ static void outT(std::string &o, const char *p, size_t cap) {
   o += " t"; o += hex((const uint8_t *)p, n);
 }
 
+template <class T> static unsigned long long rawU(const T &x) { unsigned long long v = 0; memcpy(&v, &x, sizeof(T) < 8 ? sizeof(T) : 8); return v; }
+
 #include "gen_msgs_dispatch.inc"
 
 static void fresh(tN2kMsg &M) { memset(M.Data, 0x5A, sizeof(M.Data)); }
@@ -68,7 +71,7 @@ int main() {
     if (t[0] == "S" && t.size() >= 2) {
       tN2kMsg M; fresh(M);
       std::vector<std::string> a(t.begin() + 2, t.end()); std::string o;
-      if (call_fn(atoi(t[1].c_str()), a, M, o)) res = "k" + t[1] + " " + show_msg(M); else res = "badcase";
+      if (call_fn(fid_of_name(t[1]), a, M, o)) res = "k" + t[1] + " " + show_msg(M); else res = "badcase";
     } else if (t[0] == "P" && t.size() >= 5) {
       tN2kMsg M; fresh(M);
       M.PGN = strtoul(t[2].c_str(), 0, 10); int dl = atoi(t[3].c_str());
@@ -76,16 +79,16 @@ int main() {
       for (size_t i = 0; i < d.size() && i < sizeof(M.Data); i++) M.Data[i] = d[i];
       M.DataLen = dl;
       std::vector<std::string> a(t.begin() + 5, t.end()); std::string o;
-      if (call_fn(atoi(t[1].c_str()), a, M, o)) res = "k" + t[1] + " P" + o; else res = "badcase";
+      if (call_fn(fid_of_name(t[1]), a, M, o)) res = "k" + t[1] + " P" + o; else res = "badcase";
     } else if (t[0] == "R" && t.size() >= 4) {
       tN2kMsg M; fresh(M);
       size_t n = (size_t)atoi(t[3].c_str());
       if (t.size() < 4 + n) res = "badcase";
       else {
         std::vector<std::string> a(t.begin() + 4, t.begin() + 4 + n), b(t.begin() + 4 + n, t.end()); std::string o1, o2;
-        if (call_fn(atoi(t[1].c_str()), a, M, o1)) {
+        if (call_fn(fid_of_name(t[1]), a, M, o1)) {
           std::string s1 = show_msg(M);
-          if (call_fn(atoi(t[2].c_str()), b, M, o2)) res = "k" + t[1] + "," + t[2] + " " + s1 + " | P" + o2; else res = "badcase";
+          if (call_fn(fid_of_name(t[2]), b, M, o2)) res = "k" + t[1] + "," + t[2] + " " + s1 + " | P" + o2; else res = "badcase";
         } else res = "badcase";
       }
     } else res = "badcase";
